@@ -468,7 +468,7 @@ impl Engine for TypeEng {
     fn decode(&self, s: &str) -> TCase {
         from_hex(s)
     }
-    fn regressions(&self, _prop: &str) -> Vec<String> {
+    fn regressions(&self, _prop: &str) -> Vec<(String, Option<String>)> {
         // every leaf and every constructor over the two extreme leaves, always
         let mut types: Vec<Vec<u8>> = Vec::new();
         let nl = LEAVES.len();
@@ -482,7 +482,7 @@ impl Engine for TypeEng {
                 types.push(vec![byte_for(nl + c, total), byte_for(leaf, total), byte_for(leaf, total)]);
             }
         }
-        types.chunks(48).map(|c| to_hex(&TCase { types: c.to_vec() })).collect()
+        types.chunks(48).map(|c| (to_hex(&TCase { types: c.to_vec() }), None)).collect()
     }
 }
 
